@@ -24,7 +24,9 @@ import (
 	"strconv"
 	"strings"
 	"sync"
+	"sync/atomic"
 	"testing"
+	"time"
 )
 
 // ---------------------------------------------------------------------------
@@ -157,6 +159,10 @@ type Run struct {
 	notes    []string
 	assume   []string
 	finished bool
+
+	caseStart int64 // unix nanoseconds at which the running case began; 0 between cases (atomic)
+	caseLimit int64 // nanoseconds; 0 = no per-case watchdog (atomic)
+	caseMaxNs int64 // longest case seen (atomic)
 }
 
 func envInt(name string, def int) int {
@@ -201,8 +207,28 @@ func Start(t *testing.T, id string) *Run {
 	r.emit(map[string]interface{}{"ev": "start", "id": id, "seed": seed, "tier": r.Tier,
 		"from": r.From, "to": r.To, "shard": r.Shard, "nshards": r.NShards})
 	r.flush()
+	// generic per-case watchdog: cases take milliseconds; one that has not finished after the limit is a hang
+	// (an endless loop in the code under test). Like every watchdog it only ends the process; vcheck re-runs
+	// the announced case alone and reports a timeout only if it hangs there as well.
+	lim := 60
+	if r.Thorough() {
+		lim = 120
+	}
+	r.SetCaseTimeout(time.Duration(envInt("VERIF_CASE_TIMEOUT", lim)) * time.Second)
+	go func() {
+		for {
+			time.Sleep(250 * time.Millisecond)
+			st, l := atomic.LoadInt64(&r.caseStart), atomic.LoadInt64(&r.caseLimit)
+			if st != 0 && l != 0 && time.Now().UnixNano()-st > l {
+				r.Watchdog(fmt.Sprintf("a case did not finish within %ds", l/int64(time.Second)))
+			}
+		}
+	}()
 	return r
 }
+
+// SetCaseTimeout changes the per-case watchdog (0 disables it; harnesses with long stress cases bring their own).
+func (r *Run) SetCaseTimeout(d time.Duration) { atomic.StoreInt64(&r.caseLimit, int64(d)) }
 
 func (r *Run) Thorough() bool { return r.Tier == "thorough" }
 
@@ -453,6 +479,14 @@ func (r *Run) runCase(c *Case, f func(c *Case)) {
 	r.mu.Lock()
 	r.evals++
 	r.mu.Unlock()
+	t0 := time.Now().UnixNano()
+	atomic.StoreInt64(&r.caseStart, t0)
+	defer func() {
+		atomic.StoreInt64(&r.caseStart, 0)
+		if d := time.Now().UnixNano() - t0; d > atomic.LoadInt64(&r.caseMaxNs) {
+			atomic.StoreInt64(&r.caseMaxNs, d)
+		}
+	}()
 	f(c)
 }
 
@@ -492,6 +526,7 @@ func (r *Run) Finish() {
 		sort.Strings(l)
 		sets[k] = l
 	}
+	r.maxes["longest_case_ms"] = atomic.LoadInt64(&r.caseMaxNs) / 1e6
 	r.emit(map[string]interface{}{"ev": "summary", "evaluations": r.evals, "violations": r.viols,
 		"inconclusive": r.incon, "counters": r.counters, "maxes": r.maxes, "sets": sets, "fps": fps,
 		"samples": r.samples, "rule": r.rule, "notes": r.notes, "assumptions": r.assume})
